@@ -11,6 +11,7 @@ import SpVerif.Ops.ByteField
 import SpVerif.Ops.Tlv
 import SpVerif.Ops.Parser
 import SpVerif.Ops.Uslp
+import SpVerif.Ops.Verificator
 /-!
 # Line-protocol driver: one JSON object per input line (`{"op": …, …}`), one JSON result per output line.
 `{"ok": …}` / `{"err": "<category>"}` are model results; `{"bad": "<msg>"}` is a protocol error.
@@ -31,6 +32,7 @@ def allOps : List (String × Handler) := []
   ++ Ops.Tlv.ops
   ++ Ops.Parser.ops
   ++ Ops.Uslp.ops
+  ++ Ops.Verificator.ops
 
 def table : Std.HashMap String Handler := Std.HashMap.ofList allOps
 
